@@ -46,6 +46,10 @@ Apply(e) ==
     [] e.op = "tag"      -> Tag(e.arg, FALSE)
     [] e.op = "atag"     -> Tag(e.arg, TRUE)
     [] e.op = "deltag"   -> DeleteTag(e.arg)
+    [] e.op = "reset"    -> Reset(e.arg)
+    [] e.op = "amend"    -> Amend
+    [] e.op = "movetag"  -> MoveTag(e.arg, FALSE)
+    [] e.op = "moveatag" -> MoveTag(e.arg, TRUE)
 Last == IF l = Len(Rec) THEN PrintT("CONSUMED " \o ToString(l)) ELSE TRUE
 TNext ==
   /\ l <= Len(Rec) /\ l' = l + 1
